@@ -347,6 +347,10 @@ public:
         int BlockSize;
         int max_iter = std::min(m_n, maxit);
 
+        // The status describes this call only: a Success left by an earlier compute()
+        // (e.g. with a looser tolerance) must not be reported for this one
+        m_info = Eigen::NoConvergence;
+
         SparseMatrix directions, AX, AR, BX, AD, ADD, DD, BDD, BD, XAD, RAD, DAD, XBD, RBD, BR, sparse_eVecX, sparse_eVecR, sparse_eVecD, inverse_matrix;
         Matrix XAR, RAR, XBR, gramA, gramB, eVecX, eVecR, eVecD;
         std::vector<int> columnsToDelete;
